@@ -162,6 +162,9 @@ def main():
     if line:
         print(line)
         sys.exit(1)
+    stale = os.path.join(core.ROOT, "replays", "%s-%d.json" % (prop, seed))
+    if os.path.exists(stale):
+        os.remove(stale)
     print("OK property=%s tier=%s obligations=%d/%d evaluations=%d nontrivial=%d wall=%.1fs" % (
         prop, tier, proof["discharged"], proof["obligations"], cov["evaluations"], cov["distinct_nontrivial"], wall))
     sys.exit(0)
